@@ -145,9 +145,9 @@ func init() {
 			{Pkg: snaclPkg, Fn: "ZzC17Cipher1", Tiers: "qt", Reach: []string{"c17-end", "tamper-box"}, Bound: "1-byte plaintext"},
 			{Pkg: snaclPkg, Fn: "ZzC17Cipher2", Tiers: "qt", Reach: []string{"c17-end"}, Bound: "2-byte plaintext"},
 			{Pkg: snaclPkg, Fn: "ZzC17Cipher4", Tiers: "t", Reach: []string{"c17-end"}, Bound: "4-byte plaintext"},
-			{Pkg: waddrmgrPkg, Fn: "ZzC17EncryptVsLockB1", Tiers: "qt", Sched: true, Reach: []string{"c17-end", "encrypt-refused", "encrypt-succeeded"}, Bound: "Manager.Encrypt(CKTPrivate, 3 symbolic bytes) concurrent with Manager.Lock, interleavings with at most 1 preemptive switch: refused with a locked error, or a ciphertext the same key decrypts to the original bytes after re-unlocking and the zeroed key does not open"},
-			{Pkg: waddrmgrPkg, Fn: "ZzC17EncryptPublicVsLockB1", Tiers: "qt", Sched: true, Reach: []string{"c17-end", "encrypt-succeeded"}, Bound: "the same with the public crypto key (never locked)"},
-			{Pkg: waddrmgrPkg, Fn: "ZzC17EncryptVsLockB2", Tiers: "t", Sched: true, Reach: []string{"c17-end", "encrypt-refused", "encrypt-succeeded"}, Bound: "the same with at most 2 preemptive switches"},
+			{Pkg: waddrmgrPkg, Fn: "ZzC17EncryptVsLockB2", Tiers: "qt", Sched: true, Reach: []string{"c17-end", "encrypt-refused", "encrypt-succeeded"}, Bound: "Manager.Encrypt(CKTPrivate, 3 symbolic bytes) concurrent with Manager.Lock, interleavings with at most 2 preemptive switches (one to start the encrypting goroutine, one inside it): refused with a locked error, or a ciphertext the same key decrypts to the original bytes after re-unlocking and the zeroed key does not open"},
+			{Pkg: waddrmgrPkg, Fn: "ZzC17EncryptPublicVsLockB2", Tiers: "qt", Sched: true, Reach: []string{"c17-end", "encrypt-succeeded"}, Bound: "the same with the public crypto key (never locked)"},
+			{Pkg: waddrmgrPkg, Fn: "ZzC17EncryptVsLockB4", Tiers: "t", Sched: true, Reach: []string{"c17-end", "encrypt-refused", "encrypt-succeeded"}, Bound: "the same with at most 4 preemptive switches"},
 			{Pkg: snaclPkg, Fn: "ZzC17ShortNonce", Tiers: "qt", Reach: []string{"c17-end"}, Bound: "random source failing after a symbolic number (<24) of bytes"},
 			{Pkg: snaclPkg, Fn: "ZzC17Params", Tiers: "qt", Reach: []string{"c17-end"}, Bound: "Parameters fully symbolic (salt, digest, N, R, P as 64-bit values); other lengths within 24 below / 8 above and 0..2"},
 			{Pkg: snaclPkg, Fn: "ZzC17Password1", Tiers: "qt", Reach: []string{"c17-end", "near-miss-rejected", "restart-accepts", "digest-near-miss", "salt-changed", "longer"}, Bound: "1-byte symbolic passphrase"},
